@@ -1,5 +1,5 @@
 (* Shared definitions: results, exceptions, alternatives, Q helpers. *)
-From Coq Require Export List ZArith QArith Bool Lia.
+From Coq Require Export List ZArith QArith Qabs Bool Lia.
 Export ListNotations.
 
 Inductive exn := ValueError | TypeError | NameError | AssertionError | IndexError
@@ -46,3 +46,14 @@ Qed.
 
 Definition Qmin (a b : Q) : Q := if Qle_bool a b then a else b.
 Definition Qmax (a b : Q) : Q := if Qle_bool a b then b else a.
+
+(* comparison helpers for the correspondence files *)
+Definition close (tol : Q) (a b : Q) : bool := Qle_bool (Qabs (a - b)) tol.
+Definition res_eqb {A} (eqb : A -> A -> bool) (a b : result A) : bool :=
+  match a, b with
+  | Ok u, Ok v => eqb u v
+  | Err e, Err f => exn_eqb e f
+  | _, _ => false
+  end.
+Definition res_close (tol : Q) (m i : result Q) : bool := res_eqb (close tol) m i.
+Definition Qeqb (a b : Q) : bool := Qeq_bool a b.
